@@ -535,6 +535,36 @@ func PreprocessDeclarations(baseUrl string, declarations []pa.Compound) []Declar
 	return tmp[0].Declarations
 }
 
+// maxNestedSelectorSize is the maximum number of tokens, blocks included, of a nested selector
+// whose & have been replaced by the parent selector.
+const maxNestedSelectorSize = 1 << 16
+
+// exceedsSize reports whether tokens, with the content of its blocks, hold more than *budget tokens
+// (the count stops there).
+func exceedsSize(tokens []Token, budget *int) bool {
+	for _, token := range tokens {
+		*budget--
+		if *budget < 0 {
+			return true
+		}
+		var inner []Token
+		switch token := token.(type) {
+		case pa.FunctionBlock:
+			inner = token.Arguments
+		case pa.ParenthesesBlock:
+			inner = token.Arguments
+		case pa.SquareBracketsBlock:
+			inner = token.Arguments
+		case pa.CurlyBracketsBlock:
+			inner = token.Arguments
+		}
+		if exceedsSize(inner, budget) {
+			return true
+		}
+	}
+	return false
+}
+
 // PreprocessDeclarationsPrelude filter unsupported properties or parsing errors,
 // and expand shortand properties.
 //
@@ -606,6 +636,12 @@ func PreprocessDeclarationsPrelude(baseURL string, declarations []pa.Compound, p
 					partPrelude = append([]Token{colon, is, pa.NewWhitespace(" ", pos11)}, partPrelude...)
 				}
 				declarationPrelude = append(declarationPrelude, partPrelude...)
+			}
+			// every & holds a copy of the parent selector: the size is exponential in the nesting depth
+			if budget := maxNestedSelectorSize; exceedsSize(declarationPrelude, &budget) {
+				logger.WarningLogger.Printf("Ignored nested rule: the selector `%s…` is too large once the parent selectors are substituted.\n",
+					pa.Serialize(declaration.Prelude))
+				continue
 			}
 			contents, err := PreprocessDeclarationsPrelude(baseURL, pa.ParseBlocksContents(declaration.Content, false),
 				declarationPrelude)
